@@ -110,6 +110,22 @@ def split(prop, tier, seed):
     return dict(bounded=b)
 
 
+@provider('C12')
+def unit_invariance(prop, tier, seed):
+    rng = random.Random(seed + 83)
+    cases = []
+    for _ in range(_n(tier, 14, 70)):
+        kinds = rng.choice([['storage'], ['take'], ['plant'], ['duration'], ['storage', 'take'], ['plant', 'storage']])
+        unit = rng.choice(['min', 'd'])
+        cases.append(dict(T=rng.randint(6, 9), seed=rng.randint(0, 9999), kinds=kinds, unit=unit, wacc=rng.choice([0., .3]), dur=rng.choice([2, 3]) if unit == 'min' else 3))
+    b1 = run_cases(sc.check_unit_portfolio, cases, 'the same physical portfolio (market + storage with inflow / holding cost / efficiency, contract with maximum take, plant with ramp / runtime / downtime / fuel, storage with maximum holding time) described in main time unit h and in min / d (rates x hours per unit, durations / hours per unit), with and without discounting: same optimal value',
+                   'hourly grids of 6-9 steps', 80 if tier == 'quick' else 400)
+    lc = [dict(T=rng.randint(6, 10), seed=rng.randint(0, 9999), back=rng.choice([0, 1, 2]), forward=rng.choice([0, 1, 2, 2]), unit=rng.choice(['min', 'min', 'd'])) for _ in range(_n(tier, 6, 30))]
+    b2 = run_cases(sc.check_unit_linked, lc, 'LinkedAsset (main unit may run only while an auxiliary unit is on, looking 0-2 h back / forward) in main time unit h vs min / d: same value and volumes',
+                   'hourly grids of 6-10 steps', 60 if tier == 'quick' else 300)
+    return dict(bounded=_merge(b1, b2))
+
+
 @provider('C15')
 def fix_window(prop, tier, seed):
     rng = random.Random(seed)
@@ -141,7 +157,9 @@ def nodal_prices(prop, tier, seed):
     rng = random.Random(seed)
     cases = [dict(T=T, windows=w, pseed=rng.randint(0, 999), probe=3) for T in (8, 12) for w in ([(1, 4), (6, 8)], [(0, 3), (5, 8)], [(0, 8)], [(2, 8)])]
     cases = cases[:2] + cases[4:6] + cases[2:4] + cases[6:]     # gapped activity first
-    return dict(bounded=run_cases(sc.check_nodal_price, cases[:_n(tier, 5, 8)], 'supergradient inequality V(d) <= V + price*d for injections +-0.5 at up to 3 active steps of a node with contiguous / gapped activity',
+    # discounted cash flows: daily steps, every asset with the same (large) wacc
+    cases = cases[:3] + [dict(T=8, windows=[(0, 8)], pseed=rng.randint(0, 999), probe=3, step_hours=720, wacc=.5), dict(T=8, windows=[(1, 4), (6, 8)], pseed=rng.randint(0, 999), probe=3, step_hours=720, wacc=.25)] + cases[3:]
+    return dict(bounded=run_cases(sc.check_nodal_price, cases[:_n(tier, 6, 10)], 'supergradient inequality V(d) <= V + price*d for injections +-0.5 at up to 3 active steps of a node with contiguous / gapped activity, without discounting (4 h steps) and with discounted cash flows (30-day steps, wacc 0.25-0.5 on every asset)',
                                   '4h grids of 8-12 steps', 60 if tier == 'quick' else 300))
 
 
@@ -175,8 +193,11 @@ def scaled(prop, tier, seed):
              for s in (0.5, 1., 2.) for r in (0., 0.25)]
     rng.shuffle(cases)
     # a base asset with internal (non-dispatch) variables: a structured asset with an internal node
-    cases = [dict(T=6, window=(0, 6), norm=1., scale=2., rate=.25, base='structured', pseed=5), dict(T=8, window=(2, 7), norm=4., scale=2., rate=0., base='structured', pseed=6)] + cases
-    return dict(bounded=run_cases(sc.check_scaled, cases[:_n(tier, 12, 38)], 'ScaledAsset(Storage / must-take contract / fixed load / structured asset with an internal node) held at a fixed scale vs the base asset with capacities x s/S less s x rate x active duration; windows at / after the grid start',
+    cases = [dict(T=6, window=(0, 6), norm=1., scale=2., rate=.25, base='structured', pseed=5), dict(T=8, window=(2, 7), norm=4., scale=2., rate=0., base='structured', pseed=6),
+             # base asset with a narrower window of its own than the scaled asset
+             dict(T=8, window=(0, 8), base_window=(2, 6), norm=1., scale=2., rate=.25, base='must_take', pseed=7),
+             dict(T=8, window=(1, 8), base_window=(3, 7), norm=4., scale=.5, rate=.5, base='storage', pseed=8)] + cases
+    return dict(bounded=run_cases(sc.check_scaled, cases[:_n(tier, 14, 40)], 'ScaledAsset(Storage / must-take contract / fixed load / structured asset with an internal node) held at a fixed scale vs the base asset with capacities x s/S less s x rate x active duration; windows at / after the grid start',
                                   'hourly grid of 8 steps', 50 if tier == 'quick' else 300))
 
 
@@ -235,6 +256,16 @@ def take_periods(prop, tier, seed):
                   'grids of 3-7 steps', 40 if tier == 'quick' else 200)
     b['failures'] = [f for f in b['failures'] if f['name'].startswith(prop) or f.get('error')]
     return dict(bounded=b)
+
+
+@provider('C08')
+def window_zones(prop, tier, seed):
+    rng = random.Random(seed + 61)
+    cases = [dict(tz=tz, start=st, hours=48, window=w, given=g, py=rng.random() < .5)
+             for tz in ('CET', 'UTC', 'US/Eastern') for st in ('2021-03-27', '2021-07-01') for w in ((3, 20), (10, 40)) for g in ('naive', 'same', 'UTC', 'Asia/Tokyo')]
+    rng.shuffle(cases)
+    return dict(bounded=run_cases(sc.check_window_zones, cases[:_n(tier, 16, 48)], 'asset windows given as naive dates, as zone-aware instants in the grid zone and in other zones (UTC, Asia/Tokyo) on CET / UTC / US-Eastern grids incl. a DST switch: dispatched exactly in the steps of [start, end)',
+                                  '48 h hourly grids', 30 if tier == 'quick' else 90))
 
 
 @provider('C08')
